@@ -327,12 +327,12 @@ fn builder_order_part(ctx: &Ctx, res: &mut PartResult) {
     let dir = ctx.run_dir();
     const PUSHED: usize = 100;
     for size in [0usize, 1, 4, 2000] {
-        for size_first in [false, true] {
-            let tag = format!("c16-size{}-{}", size, if size_first { "size-then-sampling" } else { "sampling-then-size" });
+        for (size_first, as_dist) in [(false, true), (true, true), (false, false), (true, false)] {
+            let tag = format!("c16-size{}-{}-{}", size, if size_first { "size-then-sampling" } else { "sampling-then-size" }, if as_dist { "d" } else { "h" });
             let got = vcore::dsd::run_exporter(
                 &dir,
                 &tag,
-                |b| Ok(if size_first { b.with_histogram_reservoir_size(size).with_histogram_sampling(true) } else { b.with_histogram_sampling(true).with_histogram_reservoir_size(size) }.send_histograms_as_distributions(true)),
+                |b| Ok(if size_first { b.with_histogram_reservoir_size(size).with_histogram_sampling(true) } else { b.with_histogram_sampling(true).with_histogram_reservoir_size(size) }.send_histograms_as_distributions(as_dist)),
                 |rec| {
                     let h = rec.register_histogram(&Key::from_name("lat"), &META);
                     for i in 0..PUSHED {
@@ -604,7 +604,7 @@ fn main() {
     driver::main(CheckDef {
         prop: "C16",
         level: "model_checking",
-        rule: "E3: for every capacity in the list, every push count 0..=cap+extra in cycle 1 and {0,1,cap+1} in cycle 2, the complete tree of answers of every fastrand(upper) call (RNG seam) is enumerated on the real AtomicSamplingReservoir; every leaf is checked (yield subset/count/sample rate/fresh start) and retention probabilities are summed with exact rational weights; streams of non-finite values and signed zeros (compared by bit pattern) for capacities 1-8 over every seam answer; the batched entry point record_many with counts 0, 1, capacity, capacity+1 and 3*capacity+1; E1: all SC interleavings (pb-bounded) of pushes with consumes (one or two pushing threads, one or two consuming threads); distinct = distinct (configuration, yields) leaves / outcomes; assumption check of the seam: 60000 trials per (capacity, n) in {(1,3),(1,5),(2,5),(3,7),(2,4),(1,11)} on the real generator, every position retained capacity/n of the time within 7 sigma (statistical, not an enumeration); plus exporters built through the public DogStatsD builder with reservoir sizes {0, 1, 4, 2000} and sampling on, the two options in either order, 100 values before the first flush: at most `size` values arrive, at rate arrived / recorded",
+        rule: "E3: for every capacity in the list, every push count 0..=cap+extra in cycle 1 and {0,1,cap+1} in cycle 2, the complete tree of answers of every fastrand(upper) call (RNG seam) is enumerated on the real AtomicSamplingReservoir; every leaf is checked (yield subset/count/sample rate/fresh start) and retention probabilities are summed with exact rational weights; streams of non-finite values and signed zeros (compared by bit pattern) for capacities 1-8 over every seam answer; the batched entry point record_many with counts 0, 1, capacity, capacity+1 and 3*capacity+1; E1: all SC interleavings (pb-bounded) of pushes with consumes (one or two pushing threads, one or two consuming threads); distinct = distinct (configuration, yields) leaves / outcomes; assumption check of the seam: 60000 trials per (capacity, n) in {(1,3),(1,5),(2,5),(3,7),(2,4),(1,11)} on the real generator, every position retained capacity/n of the time within 7 sigma (statistical, not an enumeration); plus exporters built through the public DogStatsD builder with reservoir sizes {0, 1, 4, 2000} and sampling on, the two options in either order, sent as distributions or as classic histograms, 100 values before the first flush: at most `size` values arrive, at rate arrived / recorded",
         assumptions: &["the RNG is uniform over 0..upper (the seam replaces it by enumeration of all answers with weight 1/upper); the part rng-per-thread checks, outside the enumeration, that the real generator does not give every fresh thread the same answers", "E1: sequential consistency (the reservoir uses Relaxed orderings; weak-memory effects are not explored)"],
         parts,
         run,
